@@ -12,6 +12,7 @@ import (
 	"regexp"
 	"strconv"
 	"strings"
+	"time"
 
 	"github.com/labstack/echo/v4"
 )
@@ -50,7 +51,9 @@ func c08Texts(rng *rand.Rand) []string {
 		}
 	}
 	t = append(t, "0", "-0", "+0", "007", "-007", "1", "-1", "42", "", " 1", "1 ", "0x10", "1_000", "1e3", "١٢", "１２", "12a", "--1", "+-1", "+", "-",
-		strings.Repeat("9", 40), "-"+strings.Repeat("9", 40), "1.0", "1.5", "true", "0b1", "0o7", "\t5", "5\n", "1e39", "-1e39", "inf", "NaN", "0x1p-2", "3.4028235e38", "3.5e38", "T", "TRUE", "yes", "False")
+		strings.Repeat("9", 40), "-"+strings.Repeat("9", 40), "1.0", "1.5", "true", "0b1", "0o7", "\t5", "5\n", "1e39", "-1e39", "inf", "NaN", "0x1p-2", "3.4028235e38", "3.5e38", "T", "TRUE", "yes", "False",
+		"1s", "1h30m", "-5ms", "1.5h", "9223372036854775807ns", "9223372036854775808ns", "1d", "1e3s", " 1s", "1H", "+1m", "100000000000h", ".5s", "1.s", "1..s",
+		"µs", "1µs", "1us", "2562047h47m16.854775807s", "2562047h47m16.854775808s", "-2562047h47m16.854775808s", "1h1h", "0.000000001ns", "1m-1s", "t", "F", "1.0e0", "-0.0", "0x1.8p1")
 	return t
 }
 
@@ -80,7 +83,7 @@ func genC08(rng *rand.Rand, n int, emit func(Case), dist map[string]int) {
 		}
 		switch el.Kind() {
 		case reflect.Int, reflect.Int8, reflect.Int16, reflect.Int32, reflect.Int64, reflect.Uint, reflect.Uint8, reflect.Uint16, reflect.Uint32, reflect.Uint64, reflect.Float32, reflect.Float64, reflect.Bool:
-			if el.PkgPath() == "" { // excludes time.Duration
+			if el.PkgPath() == "" || el == reflect.TypeOf(time.Duration(0)) {
 				meths = append(meths, meth{m.Name, el, sl})
 			}
 		}
@@ -93,6 +96,53 @@ func genC08(rng *rand.Rand, n int, emit func(Case), dist map[string]int) {
 			return big.NewInt(v.Int())
 		}
 		return new(big.Int).SetUint64(v.Uint())
+	}
+	durT := reflect.TypeOf(time.Duration(0))
+	// family and bit size as in the generated tables: 0 int, 1 uint, 2 float (IEEE bits at that width), 3 bool (0/1), 4 duration (ns)
+	famBits := func(t reflect.Type) (int, int) {
+		switch {
+		case t == durT:
+			return 4, 64
+		case signed(t.Kind()):
+			return 0, t.Bits()
+		case isInt(t.Kind()):
+			return 1, t.Bits()
+		case t.Kind() == reflect.Bool:
+			return 3, 1
+		}
+		return 2, t.Bits()
+	}
+	encVal := func(v reflect.Value) Sx {
+		switch {
+		case isInt(v.Kind()):
+			return Big(bigOf(v))
+		case v.Kind() == reflect.Bool:
+			return B(v.Bool())
+		case v.Kind() == reflect.Float32:
+			return Big(new(big.Int).SetUint64(uint64(math.Float32bits(float32(v.Float())))))
+		}
+		return Big(new(big.Int).SetUint64(math.Float64bits(v.Float())))
+	}
+	// what the library parser answers for the text (the oracle handed to the model)
+	oracle := func(t reflect.Type, text string) Sx {
+		f, b := famBits(t)
+		switch f {
+		case 2:
+			x, err := strconv.ParseFloat(text, b)
+			if err != nil {
+				return L(I(f), I(b), S(text), B(false), I(0))
+			}
+			v := reflect.New(t).Elem()
+			v.SetFloat(x)
+			return L(I(f), I(b), S(text), B(true), encVal(v))
+		case 3:
+			x, err := strconv.ParseBool(text)
+			return L(I(f), I(b), S(text), B(err == nil), B(x))
+		case 4:
+			x, err := time.ParseDuration(text)
+			return L(I(f), I(b), S(text), B(err == nil), Big(big.NewInt(int64(x))))
+		}
+		return nil
 	}
 	type structT struct {
 		I   int      `query:"i"`
@@ -209,15 +259,25 @@ func genC08(rng *rand.Rand, n int, emit func(Case), dist map[string]int) {
 				}
 			} else {
 				check(fv, text)
-				if isInt(kind) {
+				if isInt(kind) || kind == reflect.Bool || kind == reflect.Float32 || kind == reflect.Float64 {
 					kn := strings.ToLower(kind.String())
-					in = L(I(1), S(kn), S(text), I(7))
-					out = L(B(err != nil), Big(bigOf(fv)))
+					preset := reflect.New(fv.Type()).Elem()
+					c08Preset(preset)
+					var orcs []Sx
+					if f, _ := famBits(fv.Type()); f >= 2 {
+						eff := text
+						if eff == "" {
+							eff = map[int]string{2: "0.0", 3: "false"}[f]
+						}
+						orcs = append(orcs, oracle(fv.Type(), eff))
+					}
+					in = L(I(1), S(kn), S(text), encVal(preset), L(orcs...))
+					out = L(B(err != nil), encVal(fv))
 				}
 			}
 			cs := Case{In: in, Out: out, Ok: ok, Why: why,
 				Human: fmt.Sprintf("struct field %s (%s, preset 7) <- query %q: err=%v value=%v", ft.Name, ft.Type, vals, err, fv.Interface())}
-			if isInt(kind) && kind != reflect.Slice {
+			if (isInt(kind) || kind == reflect.Bool || kind == reflect.Float32 || kind == reflect.Float64) && kind != reflect.Slice {
 				if c08IsBoundary(text) {
 					cs.Key = Show(in)
 				}
@@ -307,13 +367,10 @@ func genC08(rng *rand.Rand, n int, emit func(Case), dist map[string]int) {
 			// reference, call by call
 			errSeen := false
 			modelable := true
-			var calls, outs []Sx
+			var calls, outs, orcs []Sx
 			boundary := false
 			for _, ct := range chain {
 				k := ct.m.elem.Kind()
-				if !isInt(k) {
-					modelable = false
-				}
 				must := strings.HasPrefix(ct.m.name, "Must")
 				skipped := ff && errSeen
 				expectErr := false
@@ -333,6 +390,15 @@ func genC08(rng *rand.Rand, n int, emit func(Case), dist map[string]int) {
 					for _, v := range vs {
 						boundary = boundary || c08IsBoundary(v)
 						switch {
+						case ct.m.elem == durT:
+							d, derr := time.ParseDuration(v)
+							var w *big.Int
+							if derr != nil {
+								expectErr = true
+							} else {
+								w = big.NewInt(int64(d))
+							}
+							want = append(want, w)
 						case isInt(k):
 							w := c08Ref(signed(k), ct.m.elem.Bits(), v)
 							if w == nil {
@@ -378,21 +444,30 @@ func genC08(rng *rand.Rand, n int, emit func(Case), dist map[string]int) {
 				if expectErr && !skipped {
 					errSeen = true
 				}
-				if isInt(k) {
+				{
+					preset := reflect.New(ct.m.elem).Elem()
+					c08Preset(preset)
+					if f, _ := famBits(ct.m.elem); f >= 2 {
+						for _, v := range ct.vals {
+							if v != "" || ct.m.slice {
+								orcs = append(orcs, oracle(ct.m.elem, v))
+							}
+						}
+					}
 					if ct.m.slice {
 						var ds []Sx
 						for i := 0; i < ct.dest.Elem().Len(); i++ {
-							ds = append(ds, Big(bigOf(ct.dest.Elem().Index(i))))
+							ds = append(ds, encVal(ct.dest.Elem().Index(i)))
 						}
-						calls = append(calls, L(I(1), S(ct.m.name), LS(ct.vals), L(I(7), I(7))))
+						calls = append(calls, L(I(1), S(ct.m.name), LS(ct.vals), L(encVal(preset), encVal(preset))))
 						outs = append(outs, L(I(1), L(ds...)))
 					} else {
 						v := ""
 						if len(ct.vals) > 0 {
 							v = ct.vals[0]
 						}
-						calls = append(calls, L(I(0), S(ct.m.name), S(v), I(7)))
-						outs = append(outs, L(I(0), Big(bigOf(ct.dest.Elem()))))
+						calls = append(calls, L(I(0), S(ct.m.name), S(v), encVal(preset)))
+						outs = append(outs, L(I(0), encVal(ct.dest.Elem())))
 					}
 				}
 			}
@@ -401,7 +476,7 @@ func genC08(rng *rand.Rand, n int, emit func(Case), dist map[string]int) {
 			}
 			in, out := L(I(2), S("chain-with-non-integer-methods")), c08BoolOut("chain-with-non-integer-methods")
 			if modelable {
-				in, out = L(I(0), B(ff), L(calls...)), L(L(outs...), B(hasErr))
+				in, out = L(I(0), B(ff), L(calls...), L(orcs...)), L(L(outs...), B(hasErr))
 			}
 			var hs []string
 			for _, ct := range chain {
